@@ -840,6 +840,20 @@ def r17_slot_cover(ctx):
                     n.target, ast.Attribute) and isinstance(
                         n.target.value, ast.Name):
                 aug.setdefault(n.target.attr, []).append(n)
+            elif isinstance(n, ast.Assign) and len(n.targets) == 1 and \
+                    isinstance(n.targets[0], ast.Attribute) and isinstance(
+                        n.targets[0].value, ast.Name) and isinstance(
+                            n.value, ast.BinOp) and isinstance(
+                                n.value.op, ast.Add) and \
+                    U(n.targets[0]) in (U(n.value.left), U(n.value.right)):
+                # `x.s = x.s + v` / `x.s = v + x.s` (numbers: the same
+                # update as `x.s += v`)
+                t_ = n.targets[0]
+                v_ = n.value.right if U(n.value.left) == U(t_) \
+                    else n.value.left
+                fake = ast.copy_location(ast.AugAssign(
+                    target=t_, op=ast.Add(), value=v_), n)
+                aug.setdefault(t_.attr, []).append(fake)
         missing = [s for s in UNIT_SLOTS + ("_weeks",) if s not in aug]
         rep.check(not missing, rule, ctx.fkey(f, None, "all-units"), f.loc(),
                   "%s updates all six unit slots and the week form" % name,
